@@ -30,6 +30,9 @@ CHECKS = {
  "C08": ("model_checking", "exhaustive order-type enumeration (E4) + explicit-state BFS of rotation histories in virtual time (E1) on the real rotation code",
          "Every weak ordering of the four stored validity instants and now (well-formed windows, at 1h and at 1ns spacing, so exact ties and +-1ns are cases) x lifetime/skew/reinitialize/clock configurations is run through the real RotateRootCertificates; the action taken must be one the property's decision table allows, promoted roots must be byte-identical, minted windows must equal now+skew..now+lifetime+skew shifted by exactly half the remaining life (frozen clock => equality), returned == reloaded, both roots self-signed CAs. Rotation/advance histories from empty storage are searched breadth-first with the same oracle.",
          "Ties may be decided either way; ill-formed windows and sub-2ns lifetime+skew are excluded as unreachable/meaningless.", "6/C08", "E4+E1"),
+ "C09": ("model_checking", "explicit-state BFS over cadence-respecting rotation/enrollment schedules in virtual time (E1) with real handshakes and the real validity filters as oracle",
+         "For nine (thorough twelve) parameter sets, every schedule of server rotation calls and node (re-)enrollments on a one-hour grid that respects the two cadence bounds of the property is explored up to the horizon; a monitor disables the passing of time when a bound would be exceeded. Every rotation must be a no-op or a promotion of a valid next root; in every reachable state the node must hold a chain that the real ClientConfigs/ServerConfig filters accept now and at every window end-point +-1ns inside the next grid interval, and a real Dial through the real listener under the virtual clock must authenticate.",
+         "Bounded by the horizon (not a fixpoint). Jittered and multi-magnitude schedules are not claimed.", "6/C09", "E1"),
  "C10": ("model_checking", "explicit-state BFS over the real RotateNodeCredentials (E1) against a reference predicate",
          "From 8 initial stores, every rotation request in the product encrypting key x identification path x inner request variant, every replay of an honoured payload and removals of old records are executed (quick depth 3, thorough 4); a request may be honoured only if a consulted record's current or recorded previous shared key opens it and the inner request is a valid registration of an unregistered key; then the new record must carry the authenticating record's state, all other records stay byte-identical, the reply opens with that record's current shared key and no other pool key, and the inner credentials with the new key only; refused requests must leave storage byte-identical.",
          "Forged = encrypted under another pool key. Revocation of the freshly rotated-in key followed by a replay is outside the alphabet.", "6/C10", "E1"),
